@@ -47,6 +47,7 @@ fn check_cfg(prop: &str, tier: Tier) -> Option<driver::CheckCfg> {
         "C14" => ("exploration", "one evaluation = one simulated run of scenario srtp_gate: two SRTP-mandatory RtpTransport legs A and B over IceConn on the simulated network, an SRTP-mandatory bridge target C (keys only by op), a plain-RTP bridge target P and an attacker host M, in WebRTC-like mode (rtcp-mux) or SDES-like mode (allow-ssrc-change transport, optionally a separate RTCP port), with one of the three SRTP profiles, executing a program of plan.ops over {keys(A|B|C, key set 0|1), send_rtp (3 streams incl. the RTX-like one; the NACK/RTX responder calls the same method), send (raw RTP bytes / RTCP bytes), send_rtcp (PLI, BYE, RR, compound), send_rtcp_sync(BYE), close (clear_listeners + synchronous BYE as PeerConnection close does), listen, inject cleartext RTP/RTCP, inject RTP/RTCP protected by the reference with the right key (key set 0|1), inject RTP/RTCP protected with a key nobody installed or right-key-then-bit-flipped, bridge A->C / A->P, unbridge}; injected packets come from M or with the peer's spoofed source address. Run indices below the exhaustive count enumerate EVERY program of length <= 3 (quick) / <= 4 (thorough) over a 16-symbol alphabet in each of the two modes, executed sequentially; the remaining indices are swarm-generated programs of 1..14 ops executed either sequentially or partitioned over 2-4 racing tasks whose interleaving (with each other and with the receive pumps) is decided by the seeded scheduler (plan.sched), 25 % of them with flip/truncate/dup/delay faults on the peers' genuine datagrams. Oracles: C14.tx at the wire monitor (every datagram leaving A, B or C must authenticate and decrypt under an independent reference SRTP context (crate webrtc-srtp, fresh context per datagram) for a key set installed on that transport and equal a packet the application asked to send or, for C, a bridged packet; any datagram before keys exist is a violation); C14.rx at three listener channels (ssrc / payload-type / provisional route), the RTCP listener, RtpObserver ingress and bridge-egress callbacks and the wire of both bridge targets (every surfaced packet must be one that was put on the wire protected under a key set the receiving transport has installed, with unchanged header). distinct = semantic event trace (rig configuration, op kinds/targets/results, wire classes, surfaced-packet verdicts; no timestamps, lengths or packet ids) hashes to a value not seen before in the batch; non-trivial = at least one send-type op (send_rtp, send, send_rtcp, send_rtcp_sync, close) was executed on a transport that had no keys yet, or at least one cleartext / wrong-key / corrupted packet was injected towards a transport while an observer, listener or RTCP listener was registered on it."),
         "C18" => ("exploration", "one evaluation = one simulated run of a single IceConn (latching enabled, probation 0..8, expected SSRC known/unknown, rtcp-mux on/off, signalled remote = a silent address / one of the sources / not set) under a plan expanded from (VERIF_SEED, run index); after every delivered packet remote_addr, remote_rtcp_addr and rtp_latched are compared with a reference model of the documented rules. Even run indices below 2x the enumerated space are exhaustive small-scope blocks (knob enum=1: 512 consecutive sequences of ALL length-5 (quick) / length-6 (thorough) words over 21 symbols = {A,C,M} x {matching RTP x marker 0/1 x seq +1/jump, other-SSRC RTP, RTCP} + {reset_latch, signalling retarget, selected-pair update}, for probation in {0,1,2,3,6,8} x signalled remote in {silent address, source A}; knob enum=2: all length-8 / length-10 marker-less matching words over {A,C,M} x {+1, jump} for probation {6,8}; every word runs on a fresh IceConn and is fed straight to IceConn::receive; prefixes cover all shorter words; other_stats.seqs counts the words). The other runs (enum=0) are random sequences of up to ~60 packets from up to 5 source addresses through the simulated socket and pump task, with generator-drawn reordering/duplication between sources, sequence jumps and wraps, wrong-SSRC streams, RTCP from RTP and RTP+1 ports, runts, non-RTP junk and interleaved control ops. distinct = semantic trace (per packet: source, class, SSRC match, marker, resulting addresses and latch flag; no sequence numbers, times or lengths) not seen before in the batch; non-trivial = at commit time at least two competing sources had sent matching RTP, or a packet from an address other than the committed one was delivered after commit."),
         "C10" => ("exploration", "one evaluation = two full PeerConnections (ICE gathering, checks, nomination, DTLS-SRTP or SDES or plain RTP, SCTP/DCEP, media tracks) on a fault-free simulated network with a configuration point of the lattice mode{WebRtc,Srtp,Rtp} x mix{dc,audio,audio+video,dc+audio,dc+audio+video} x bundle{3} x rtcp-mux{2} x ICE-lite{none,A,B} x UDP-mux{off,answerer} x latching{off,on,on+probation} x compat{Standard,LegacySip} x offerer{A,B}, filtered by the written compatibility predicate (rig_pc.rs PcKnobs::compatible); thorough enumerates every compatible point once, quick samples them; latencies and task schedule are seeded per run. distinct = semantic trace hash; non-trivial = the exchange reached the data/media phase."),
+        "C17" => ("exploration", "one evaluation = a PeerConnection pair driven by an application task from creation through offer/answer, ICE, DTLS, SCTP/DCEP to steady traffic; at a planned crash point (one of 9 phase boundaries + a delta of 0..150 ms, or an absolute time) one terminating event {close, drop of every handle, close twice, peer DTLS close_notify, forged-with-session-keys SCTP ABORT / SHUTDOWN, ICE stop, total partition, close with a sender blocked on flow control} hits one side, optionally a second event races it 0..5 ms later. The systematic core (10 phases x 9 events x 2 sides) runs first, then seeded combinations over transport modes and media mixes. distinct = semantic trace hash; non-trivial = an event was applied."),
         _ => return None,
     };
     let mut base_assumptions = base_assumptions;
